@@ -95,11 +95,68 @@ func (w *world) digestOf(fn *types.Func) []string {
 		}
 		return ps, true
 	}
+	// md5Concat(a, b, c): a library helper `func h(parts ...[]byte) []byte { s := md5.Sum(bytes.Join(parts, nil)); return s[:] }`
+	fromHelper := func(x ast.Expr) ([]string, bool) {
+		c, ok := unparen(x).(*ast.CallExpr)
+		if !ok || c.Ellipsis.IsValid() {
+			return nil, false
+		}
+		var hfn *types.Func
+		switch f := unparen(c.Fun).(type) {
+		case *ast.Ident:
+			hfn, _ = info.Uses[f].(*types.Func)
+		case *ast.SelectorExpr:
+			hfn, _ = info.Uses[f.Sel].(*types.Func)
+		}
+		if hfn == nil || hfn.Pkg() == nil || !strings.HasPrefix(hfn.Pkg().Path(), modPath) {
+			return nil, false
+		}
+		hfd := w.funcs[hfn]
+		sig := hfn.Type().(*types.Signature)
+		if hfd == nil || hfd.Body == nil || !sig.Variadic() || sig.Params().Len() != 1 || len(hfd.Body.List) != 2 {
+			return nil, false
+		}
+		hinfo := w.infoOf[hfd]
+		param := sig.Params().At(0)
+		a, ok1 := hfd.Body.List[0].(*ast.AssignStmt)
+		r, ok2 := hfd.Body.List[1].(*ast.ReturnStmt)
+		if !ok1 || !ok2 || len(a.Lhs) != 1 || len(a.Rhs) != 1 || len(r.Results) != 1 {
+			return nil, false
+		}
+		sc, ok := unparen(a.Rhs[0]).(*ast.CallExpr)
+		if !ok || calleeFullName(hinfo, sc) != "crypto/md5.Sum" || len(sc.Args) != 1 {
+			return nil, false
+		}
+		jc, ok := unparen(sc.Args[0]).(*ast.CallExpr)
+		if !ok || calleeFullName(hinfo, jc) != "bytes.Join" || len(jc.Args) != 2 || !isObjIdent(hinfo, jc.Args[0], param) {
+			return nil, false
+		}
+		if id, ok := unparen(jc.Args[1]).(*ast.Ident); !ok || id.Name != "nil" {
+			return nil, false
+		}
+		sl, ok := unparen(r.Results[0]).(*ast.SliceExpr)
+		if !ok || sl.Low != nil || sl.High != nil || !isObjIdent(hinfo, sl.X, hinfo.Defs[a.Lhs[0].(*ast.Ident)]) {
+			return nil, false
+		}
+		var ps []string
+		for _, e := range c.Args {
+			p, ok := w.piece(info, e)
+			if !ok {
+				return nil, false
+			}
+			ps = append(ps, p)
+		}
+		return ps, true
+	}
 	for _, st := range fd.Body.List {
 		switch s := st.(type) {
 		case *ast.AssignStmt:
 			if len(s.Rhs) != 1 {
 				return bad(st)
+			}
+			if ps, ok := fromHelper(s.Rhs[0]); ok && !found {
+				pieces, found = ps, true
+				continue
 			}
 			c, isCall := unparen(s.Rhs[0]).(*ast.CallExpr)
 			if !isCall {
@@ -184,6 +241,12 @@ func (w *world) digestOf(fn *types.Func) []string {
 				return bad(st)
 			}
 		case *ast.ReturnStmt:
+			if !found && len(s.Results) == 1 {
+				if ps, ok := fromHelper(s.Results[0]); ok {
+					pieces, found = ps, true
+					continue
+				}
+			}
 			if !found {
 				return bad(st)
 			}
